@@ -68,7 +68,7 @@ Step ==
   \/ /\ Has(0) /\ At(0)[1] = "req"
      /\ \/ At(0)[2] = "pause" /\ ReqPause(FALSE)
         \/ At(0)[2] = "defer" /\ ReqPause(TRUE)
-        \/ At(0)[2] \in {"abort", "stop", "halt"} /\ ReqTerminate(At(0)[2])
+        \/ At(0)[2] \in {"abort", "stop", "halt"} /\ (ReqTerminate(At(0)[2]) \/ ReqTerminatePaused(At(0)[2]))
         \/ At(0)[2] = "suspend" /\ ReqSuspendT(At(0)[3], At(0)[4], At(0)[5])
         \/ At(0)[2] = "release" /\ ReleaseT(At(0)[3])
   \/ /\ Has(0) /\ At(0)[1] = "stat"
@@ -79,7 +79,7 @@ Step ==
      /\ \/ At(0)[2] = "run" /\ Call(NoP, At(0)[3] = "ri")
         \/ At(0)[2] = "resume" /\ CallResume
         \/ At(0)[2] \in {"abort", "stop", "halt"} /\ CallTerminate(At(0)[2])
-  \/ Return
+  \/ Return \/ LateReqRet
 
 TraceNext == Step /\ Consume /\ MonNext
 TraceReport == Report(tid)
